@@ -17,7 +17,10 @@ REQUIRED_THEOREMS = [
 RULE = ("per RNG seed (100 quick / 10^4 thorough): bootstrap (length 1..2000, 1..200 resamples), jackknife, shuffle, "
         "shuffle_two on distinct / repeated / constant / special-value data (NaN, ±inf, ±0, subnormal), plus raw generator "
         "draws (u64, f64, Lemire bounded draws with rejection-heavy bounds, inclusive ranges with overflow panics), "
-        "DiscreteUniform / Uniform sample_n; every reply carries the generator state after the call; "
+        "DiscreteUniform / Uniform sample_n; every reply carries the generator state after the call; deterministic strata: "
+        "every function at lengths 1,2,3, 2^k-1, 2^k, 2^k+1, multiples of 512 +-1 up to 2000; lengths 2..11 with 199/200 resamples; "
+        "len x n_bootstrap just below/at/above 65536; long-then-short call sequences; arrays with both zeros against distinct "
+        "partners; DiscreteUniform through default+update / setters / clone; "
         "non-trivial = distinct (op, length, resamples, data kind, seed class)")
 EXHAUSTIVE = {"quick": False, "thorough": False}
 NOT_PROVED = [
@@ -32,13 +35,19 @@ TRUSTED = [
     "executor built with overflow-checks = true (i64/u64 range overflow panics are modelled as panics)",
 ]
 ASSUMPTIONS = ["data length < 2^53 (index round trip i64 -> f64 -> usize is exact)"]
-ALPHA = 1e-12
+# statistical budget per case: DKW 9e-13 + six frequency cells at 1e-14 each  <= 1e-12
+ALPHA = 9e-13
+CELL_ALPHA = 1e-14      # per-line first/last-slot and first/last-index frequency cells (Chernoff–Hoeffding KL bound)
+POOL_ALPHA = 1e-14      # the same cells pooled over all bootstrap lines of a run (per pooled statistic)
 MODEL_TIMEOUT = 1800
 IMPL_TIMEOUT = 900
 
 SPECIAL = [float("nan"), float("inf"), float("-inf"), 0.0, -0.0, 5e-324, -5e-324, 1.7976931348623157e308,
            2.2250738585072014e-308, 1.0, -1.0]
-KINDS = ["distinct", "repeated", "constant", "special", "normal"]
+KINDS = ["distinct", "repeated", "constant", "special", "normal", "exact", "zeros"]
+EXACT = ([float(i) for i in range(-3, 4)] + [0.5, -0.5, 1.5, 2.5, 1 / 3, 2 / 3, -0.0, 1e-300, 1e300, 2.0 ** 500, 2.0 ** -500,
+          -2.0 ** 500, 5e-324] + [2.0 ** k for k in (-1, 1, 10, 52, 53)]
+         + [math.nextafter(2.0 ** k, s) for k in (0, 1, 10, 53) for s in (0.0, math.inf)])
 
 
 def mkdata(rng, n, kind):
@@ -52,6 +61,15 @@ def mkdata(rng, n, kind):
     if kind == "constant":
         c = rng.choice([0.0, -0.0, 1.5, float("nan"), float("inf")])
         return [c] * n
+    if kind == "exact":
+        return [rng.choice(EXACT) if rng.chance(0.7) else rng.normal() for _ in range(n)]
+    if kind == "zeros":  # both signs of zero present (== compares them equal, the bit patterns differ)
+        xs = [rng.choice([0.0, -0.0]) if rng.chance(0.8) else rng.choice([1.0, -1.0, float("nan")]) for _ in range(n)]
+        if n >= 2:
+            xs[rng.randint(0, n - 1)] = 0.0
+            j = rng.randint(0, n - 1)
+            xs[j] = -0.0 if xs[j] != 0.0 or math.copysign(1.0, xs[j]) > 0 else xs[j]
+        return xs
     if kind == "special":
         return [rng.choice(SPECIAL) if rng.chance(0.5) else rng.normal() for _ in range(n)]
     return [rng.normal() * 10.0 ** rng.randint(-3, 3) for _ in range(n)]
@@ -61,6 +79,13 @@ def vecs(xs):
     return "0" if not xs else "%d %s" % (len(xs), " ".join(f2h(x) for x in xs))
 
 
+def model_line(line):
+    t = line.split()
+    if t[0] == "dur":  # peripheral routes share the model of the direct route
+        return " ".join(["du"] + t[2:])
+    return line
+
+
 def corpus():
     one = vecs([2.5])
     two = vecs([1.0, 2.0])
@@ -68,6 +93,9 @@ def corpus():
         # F22 (fixed): length-1 input used to panic inside alea::i64_in_range(0, 0)
         "boot 1 3 " + one, "jack " + one, "shuf 1 " + one, "shuf2 1 %s %s" % (one, vecs([-7.0])),
         "du 7 0 0 5", "du 7 -3 -3 2",
+        "jack " + two, "jack " + vecs([1.0, 2.0, 3.0]), "boot 5 200 " + vecs([1.0, 2.0, 3.0]),
+        "shuf2 9 %s %s" % (vecs([0.0, -0.0, 0.0, -0.0, 1.0]), vecs([1.0, 2.0, 3.0, 4.0, 5.0])),
+        "shuf 9 " + vecs([0.0, -0.0, -0.0, 0.0]),
         # length 0 is outside the property (panics), unequal lengths panic
         "boot 1 2 0", "jack 0", "shuf 1 0", "shuf2 1 0 0", "shuf2 1 %s %s" % (two, one),
         # generator: rejection-heavy Lemire bound, overflow panics, asserts
@@ -86,9 +114,74 @@ def pick_n(rng, cap):
     return max(1, min(cap, int(round(rng.loguniform(1, 2000)))))
 
 
+SIZES = sorted({1, 2, 3, 4, 5, 7, 8, 9, 15, 16, 17, 24, 31, 32, 33, 63, 64, 65, 127, 128, 129, 255, 256, 257, 511, 512, 513,
+                1023, 1024, 1025, 1535, 1536, 1537, 1999, 2000})
+
+
+def strata(rng, lines, cover, rep):
+    """Deterministic strata (GENERIC_STRATA pass): length boundaries incl. 2^k+1 (range width a power of two), small odd/even
+    lengths with 200 resamples (per-slot and end-point frequencies have power there), len x n_bootstrap around 65536 with
+    requests that are no multiple of a batch, long input followed by short input on the same thread for every function,
+    length 1/2/3 for every function, both zeros in paired arrays, exact special values, peripheral DiscreteUniform routes."""
+    sd = lambda: rng.u64()
+    dist = lambda n: mkdata(rng, n, "distinct")
+    # 1. length boundaries for every function (rotating through the size list across repetitions for the costly ones)
+    for j, n in enumerate(SIZES):
+        kind = KINDS[(j + rep) % len(KINDS)]
+        nb = max(1, min(200, 6000 // n))
+        lines.append("boot %d %d %s" % (sd(), nb, vecs(mkdata(rng, n, "distinct" if j % 2 == 0 else kind))))
+        lines.append("shuf %d %s" % (sd(), vecs(mkdata(rng, n, kind))))
+        k2 = KINDS[(j + rep + 3) % len(KINDS)]
+        lines.append("shuf2 %d %s %s" % (sd(), vecs(mkdata(rng, n, kind)), vecs(mkdata(rng, n, k2))))
+        if n <= 130 or (j + rep) % 12 == 0 and n <= 600:
+            lines.append("jack " + vecs(mkdata(rng, n, kind)))
+        lines.append("du %d %d %d %d" % (sd(), 0, n - 1, 101 if j % 2 else 100))   # width n-1: 2^k for n = 2^k+1
+        cover["strata:size"] += 1
+    # 2. small lengths, many resamples: per-slot (first/last slot) and end-point frequencies
+    for n in (2, 3, 4, 5, 6, 7, 9, 11):
+        lines.append("boot %d 200 %s" % (sd(), vecs(dist(n))))
+        lines.append("boot %d 199 %s" % (sd(), vecs(mkdata(rng, n, "repeated" if n % 2 else "exact"))))
+        cover["strata:small-n-200"] += 2
+    # 3. len x n_bootstrap around 65536 (just below, at, just above; requests that are not a multiple of 65536 // len)
+    for n, nb in ((2000, 32), (2000, 33), (1999, 33), (1024, 64), (1024, 65), (1025, 64), (513, 128), (512, 129),
+                  (400, 165), (331, 199), (329, 200), (2000, 47)):
+        if rep % 2 == 0 or (n, nb) in ((2000, 33), (1025, 64), (512, 129), (331, 199)):
+            lines.append("boot %d %d %s" % (sd(), nb, vecs(mkdata(rng, n, rng.choice(["distinct", "normal", "exact"])))))
+            cover["strata:65536"] += 1
+    # 4. long input then short input on the same thread, same seed (stale scratch state), for every function
+    for big, small in ((2000, 3), (1024, 1), (257, 2), (1500, 7)):
+        s1 = sd()
+        lines.append("boot %d 3 %s" % (s1, vecs(dist(big))))
+        lines.append("boot %d 5 %s" % (s1, vecs(dist(small))))
+        lines.append("shuf %d %s" % (s1, vecs(dist(big))))
+        lines.append("shuf %d %s" % (s1, vecs(dist(small))))
+        lines.append("shuf2 %d %s %s" % (s1, vecs(dist(big)), vecs(dist(big))))
+        lines.append("shuf2 %d %s %s" % (s1, vecs(dist(small)), vecs(dist(small))))
+        lines.append("jack " + vecs(dist(min(big, 300))))
+        lines.append("jack " + vecs(dist(small)))
+        lines.append("du %d 0 %d %d" % (s1, big - 1, big))
+        lines.append("du %d 0 %d %d" % (s1, max(small - 1, 0), small))
+        cover["strata:long-then-short"] += 1
+    # 5. both zeros / ties in one array, distinct partner (a skipped swap of "equal" entries unpairs)
+    for n in (2, 3, 8, 33, 200):
+        z = mkdata(rng, n, "zeros")
+        lines.append("shuf2 %d %s %s" % (sd(), vecs(z), vecs(dist(n))))
+        lines.append("shuf2 %d %s %s" % (sd(), vecs(dist(n)), vecs(z)))
+        lines.append("shuf2 %d %s %s" % (sd(), vecs(mkdata(rng, n, "repeated")), vecs(dist(n))))
+        lines.append("shuf %d %s" % (sd(), vecs(z)))
+        cover["strata:zeros"] += 1
+    # 6. peripheral routes of DiscreteUniform (default+update, setters, clone, long sample_n first)
+    for route in (1, 2, 3, 4):
+        for lo, hi in ((0, 0), (0, 1), (0, 2), (-3, 4), (0, 16), (0, 1999), (5, 4), (-7, -7), (0, 255), (0, 256)):
+            lines.append("dur %d %d %d %d %d" % (route, sd(), lo, hi, rng.choice([1, 2, 7, 64, 101])))
+            cover["strata:du-route"] += 1
+
+
 def gen(rng, tier):
     lines = []
     cover = Counter()
+    for rep in range(1 if tier == "quick" else 12):
+        strata(rng, lines, cover, rep)
     nseeds = 100 if tier == "quick" else 10000
     # budgets (tokens per request) keep quick under a minute and thorough under 15 minutes
     boot_budget = 60000 if tier == "quick" else 6000
@@ -169,7 +262,7 @@ def nontrivial(line, reply):
     t = line.split()
     if reply.startswith("#"):
         return None
-    return " ".join(t[:4])[:80] if t[0] in ("rng", "du", "uni") else "%s %s %s" % (t[0], t[1], t[2] if len(t) > 2 else "")
+    return " ".join(t[:4])[:80] if t[0] in ("rng", "du", "dur", "uni") else "%s %s %s" % (t[0], t[1], t[2] if len(t) > 2 else "")
 
 
 def read_vec(t, i):
@@ -181,6 +274,24 @@ def dkw_eps(N):
     return math.sqrt(math.log(2.0 / ALPHA) / (2.0 * N))
 
 
+def kl_tail(T, mu, x):
+    """Chernoff–Hoeffding: for a sum X of T independent [0,1] variables with E X = mu,
+    P(X <= x) (x < mu) resp. P(X >= x) (x > mu) <= exp(-T KL(x/T || mu/T)).  Returns that bound (1.0 if x == mu)."""
+    if T == 0 or mu <= 0 or mu >= T:
+        return 1.0 if x == mu else 0.0   # deterministic sum: any deviation is impossible under the law
+    a, p = x / T, mu / T
+    kl = 0.0
+    if a > 0:
+        kl += a * math.log(a / p)
+    if a < 1:
+        kl += (1 - a) * math.log((1 - a) / (1 - p))
+    return math.exp(-T * kl) if kl > 0 else 1.0
+
+
+CELLS = ("all-slots/first-elem", "all-slots/last-elem", "first-slot/first-elem", "first-slot/last-elem",
+         "last-slot/first-elem", "last-slot/last-elem")
+
+
 def i64s(x):
     return x - (1 << 64) if x >= (1 << 63) else x
 
@@ -189,6 +300,7 @@ def oracle(lines, impl):
     """The property, decided on the implementation's replies at token level (a float is its 16-hex-digit
     token; all NaNs are the one token `nan`, so multisets with NaN are well defined)."""
     fails = []
+    pool = {}   # (cell, parity of n) -> [T, mu, X, worst line, worst bound]
 
     def bad(i, key, msg, exp=None):
         fails.append(Failure(i, key, msg, exp))
@@ -239,7 +351,6 @@ def oracle(lines, impl):
                         rank[x] = len(rank)
                 cnt = Counter(out)
                 order = sorted(rank, key=rank.get)
-                F = FN = 0.0
                 sup = 0.0
                 cm = ce = 0
                 for x in order:
@@ -249,6 +360,29 @@ def oracle(lines, impl):
                 if sup > eps:
                     bad(i, "boot:uniformity", "index frequencies deviate from the uniform law: sup|F_N-F| = %.4g > DKW band %.4g "
                         "(N=%d draws, alpha=%g)" % (sup, eps, N, ALPHA))
+            # boundary indices and boundary slots separately (the sup-norm band above is blind to a defect that
+            # only touches the first/last index or the last slot of each resample once n is not tiny)
+            if n >= 2:
+                pf, pl = mult[d[0]] / n, mult[d[-1]] / n
+                firsts = [out[q * n] for q in range(nb)]
+                lasts = [out[q * n + n - 1] for q in range(nb)]
+                cnt = Counter(out)
+                obs = ((N, pf, cnt.get(d[0], 0)), (N, pl, cnt.get(d[-1], 0)),
+                       (nb, pf, firsts.count(d[0])), (nb, pl, firsts.count(d[-1])),
+                       (nb, pf, lasts.count(d[0])), (nb, pl, lasts.count(d[-1])))
+                for cname, (T, p, x) in zip(CELLS, obs):
+                    b = kl_tail(T, T * p, x)
+                    if b < CELL_ALPHA:
+                        bad(i, "boot:slot-frequency" if "all" not in cname else "boot:endpoint-frequency",
+                            "cell %s: observed %d of %d draws, expected %.1f (tail bound %.3g < %g); n=%d, %d resamples"
+                            % (cname, x, T, T * p, b, CELL_ALPHA, n, nb))
+                        break
+                    st_ = pool.setdefault((cname, n % 2), [0, 0.0, 0, i, 2.0])
+                    st_[0] += T
+                    st_[1] += T * p
+                    st_[2] += x
+                    if b < st_[4]:
+                        st_[3], st_[4] = i, b
         elif op == "jack":
             d, _ = read_vec(t, 1)
             n = len(d)
@@ -304,7 +438,9 @@ def oracle(lines, impl):
                     bad(i, key + ":multiset", "shuffle_two changed the multiset of an array")
                 else:
                     bad(i, key + ":pairing", "shuffle_two broke the pairing: the two arrays were not permuted by one common permutation")
-        elif op == "du":
+        elif op in ("du", "dur"):
+            if op == "dur":
+                t = ["du"] + t[2:]
             lo, hi, cnt = int(t[2]), int(t[3]), int(t[4])
             if lo > hi:
                 continue
@@ -334,4 +470,11 @@ def oracle(lines, impl):
                 lo, hi = int(t[3]), int(t[4])
                 if any(not (lo <= int(x) <= hi) for x in r[:-1]):
                     bad(i, "rng:u64rg-range", "u64_in_range(%d,%d) returned a value outside the range" % (lo, hi))
+    # pooled boundary cells over all bootstrap lines of the run (independent draws, heterogeneous probabilities)
+    for (cname, par), (T, mu, X, wi, wb) in sorted(pool.items()):
+        b = kl_tail(T, mu, X)
+        if b < POOL_ALPHA:
+            bad(wi, "boot:slot-frequency" if "all" not in cname else "boot:endpoint-frequency",
+                "pooled over all bootstrap lines with %s length, cell %s: observed %d of %d draws, expected %.1f "
+                "(tail bound %.3g < %g); most deviant single line attached" % ("odd" if par else "even", cname, X, T, mu, b, POOL_ALPHA))
     return fails
